@@ -106,6 +106,41 @@ Proof.
   apply uint_loop_app; assumption.
 Qed.
 
+Lemma label_ok_u32' l X : label_ok l = true -> head_sat (fun b => negb (is_digit b)) X ->
+  u32 (l ++ X) = POk (match u32 l with POk n _ => n | _ => 0%N end) X.
+Proof.
+  unfold label_ok. destruct (u32 l) as [v r| | | |] eqn:E; try discriminate.
+  destruct r; [|discriminate]. intros _ HX. unfold u32, uint in *.
+  apply uint_loop_app; assumption.
+Qed.
+
+Lemma uint_loop_digits maxv l : forall acc first v,
+  uint_loop maxv l acc first = POk v [] -> forallb is_digit l = true.
+Proof.
+  induction l as [|b t IH]; intros acc first v H; [reflexivity|]. simpl in *.
+  destruct (is_digit b); [|destruct first; [discriminate|inversion H]].
+  destruct (N.ltb maxv _); [discriminate|]. simpl. exact (IH _ _ _ H).
+Qed.
+
+Lemma forallb_impl {A} (f g : A -> bool) l :
+  (forall x, f x = true -> g x = true) -> forallb f l = true -> forallb g l = true.
+Proof.
+  intros H. induction l as [|x t IH]; [reflexivity|]. simpl. intros K.
+  apply andb_true_iff in K. destruct K as [K1 K2]. rewrite (H _ K1), (IH K2). reflexivity.
+Qed.
+
+Lemma label_digits l : label_ok l = true -> forallb is_digit l = true.
+Proof.
+  unfold label_ok, u32, uint. destruct (uint_loop _ l 0%N true) as [v r| | | |] eqn:E; try discriminate.
+  destruct r; [|discriminate]. intros _. exact (uint_loop_digits _ _ _ _ _ E).
+Qed.
+
+Lemma digit_not_nl d : is_digit d = true -> negb (is_nl d) = true.
+Proof. destruct d; simpl; intros H; try discriminate; reflexivity. Qed.
+
+Lemma label_no_nl l : label_ok l = true -> no_nl l = true.
+Proof. intros H. unfold no_nl. apply (forallb_impl is_digit _ l digit_not_nl), label_digits, H. Qed.
+
 Lemma label_head_digit l : label_ok l = true -> exists d t, l = d :: t /\ is_digit d = true.
 Proof.
   unfold label_ok, u32, uint. destruct l as [|d t]; [simpl; discriminate|].
@@ -394,12 +429,6 @@ Section RT.
     split; [reflexivity|]. unfold eol_of. apply trim_printed_value; assumption.
   Qed.
 
-  Definition set_ac v r := mkRec (r_id r) (Some v) (r_name r) (r_desc r) (r_data r) (r_refs r).
-  Definition set_id v r := mkRec (Some v) (r_ac r) (r_name r) (r_desc r) (r_data r) (r_refs r).
-  Definition set_na v r := mkRec (r_id r) (r_ac r) (Some v) (r_desc r) (r_data r) (r_refs r).
-  Definition set_de v r := mkRec (r_id r) (r_ac r) (r_name r) (Some v) (r_data r) (r_refs r).
-  Definition set_data m r := mkRec (r_id r) (r_ac r) (r_name r) (r_desc r) (Some m) (r_refs r).
-
   Ltac field_step a b k :=
     intros H; cbn [record_loop];
     rewrite (parse_tag_known a b k _ eq_refl); cbn [pbind fst snd];
@@ -426,17 +455,38 @@ Section RT.
     destruct Ht as [->| ->]; [unfold eol; destruct crlf|]; reflexivity.
   Qed.
 
+  Lemma loop_skip f (k : skipk) v tl r : no_nl v = true ->
+    loop (S f) (fst (skip_tag k) :: snd (skip_tag k) :: v ++ eol ++ tl) r = loop f tl r.
+  Proof.
+    intros H. cbn [record_loop].
+    assert (T : exists t, classify (fst (skip_tag k)) (snd (skip_tag k)) = Some t /\
+                          (t = TBA \/ t = TBS \/ t = TBF \/ t = TCO)).
+    { destruct k; eexists; (split; [reflexivity|tauto]). }
+    destruct T as (t & Ht & Hk). rewrite (parse_tag_known _ _ t _ Ht). cbn [pbind fst snd].
+    rewrite tagged_line. unfold eol. rewrite (parse_line_eol crlf v tl H).
+    destruct Hk as [->|[->|[->| ->]]]; reflexivity.
+  Qed.
+
+  Lemma loop_field f (k : fieldk) x tl r : field_ok x = true ->
+    loop (S f) (fst (field_tag k) :: snd (field_tag k) :: " " :: " " :: x ++ eol ++ tl) r =
+    loop f tl (set_field k x r).
+  Proof. destruct k; [apply loop_ac|apply loop_id|apply loop_na|apply loop_de]. Qed.
+
   Lemma classify_p0 (po : bool) : classify "P" (if po then "O" else "0") = Some TP0.
   Proof. destruct po; reflexivity. Qed.
 
-  Lemma loop_matrix f (po : bool) c cs idx r0 rows tl r :
+  Lemma parse_row_nondigit k h X : is_digit h = false -> parse_row k (h :: X) = PError.
+  Proof. intros H. rewrite parse_row_unfold. unfold u32, uint. cbn [uint_loop]. rewrite H. reflexivity. Qed.
+
+  Lemma loop_matrix f (po : bool) c cs idx r0 rows h X r :
     sym_indices al (c :: cs) = Some idx ->
     forallb (row_ok (length (c :: cs))) (r0 :: rows) = true ->
+    is_digit h = false ->
     loop (S f) ("P" :: (if po then "O" else "0") :: sym_text (c :: cs) ++ eol ++
-                rows_text (r0 :: rows) ++ "X" :: "X" :: tl) r =
-    loop f ("X" :: "X" :: tl) (set_data (build_matrix al idx (map pr_toks (r0 :: rows))) r).
+                rows_text (r0 :: rows) ++ h :: X) r =
+    loop f (h :: X) (set_data (build_matrix al idx (map pr_toks (r0 :: rows))) r).
   Proof.
-    intros Hs Hr. cbn [record_loop]. rewrite (parse_tag_known "P" _ TP0 _ (classify_p0 po)). cbn [pbind fst snd].
+    intros Hs Hr Hh. cbn [record_loop]. rewrite (parse_tag_known "P" _ TP0 _ (classify_p0 po)). cbn [pbind fst snd].
     rewrite (parse_alphabet_printed po c cs idx _ Hs). cbn [pbind].
     assert (Hlen : length idx = length (c :: cs)).
     { clear -Hs. revert idx Hs. generalize (c :: cs). induction l as [|x l IH]; intros idx H; simpl in H.
@@ -444,7 +494,8 @@ Section RT.
       - destruct (sym_index al x); [|discriminate]. destruct (sym_indices al l) as [i'|]; [|discriminate].
         inversion H; subst. simpl. rewrite (IH i' eq_refl). reflexivity. }
     rewrite Hlen.
-    rewrite (many1_rows (length (c :: cs)) r0 rows ("X" :: "X" :: tl)); [reflexivity|simpl; lia|exact Hr|reflexivity].
+    rewrite (many1_rows (length (c :: cs)) r0 rows (h :: X)); [reflexivity|simpl; lia|exact Hr|].
+    apply parse_row_nondigit. exact Hh.
   Qed.
 End RT.
 
@@ -455,114 +506,256 @@ Section RT2.
   Let sp1 := space1_complete.
   Notation loop := (record_loop sp1 al).
 
-  (* ---- composition: the whole printed record ---- *)
-
-  Definition apply_opt (set : str -> record -> record) (v : option str) (r : record) : record :=
-    match v with None => r | Some x => set x r end.
-
-  Lemma print_field_some a b x tl :
-    print_field a b eol (Some x) ++ tl = a :: b :: " " :: " " :: x ++ eol ++ "X" :: "X" :: eol ++ tl.
-  Proof. unfold print_field, xx_line. cbn [app]. rewrite <- !app_assoc. reflexivity. Qed.
-
   Lemma eol_length : 1 <= length eol.
   Proof. unfold eol. destruct crlf; simpl; lia. Qed.
 
-  Lemma loop_opt_field (a b : byte) set :
-    (forall f x tl r, field_ok x = true ->
-       loop (S f) (a :: b :: " " :: " " :: x ++ eol ++ tl) r = loop f tl (set x r)) ->
-    forall v F tl r, ofield_ok v = true -> length (print_field a b eol v ++ tl) < F ->
-    exists F', length tl < F' /\ loop F (print_field a b eol v ++ tl) r = loop F' tl (apply_opt set v r).
+  (* ---- reference blocks ---- *)
+
+  Definition stop2 (l : str) : Prop :=
+    has_two_chars l = true /\ starts_with (tg "R" "X") l = false /\ starts_with (tg "R" "A") l = false /\
+    starts_with (tg "R" "L") l = false /\ starts_with (tg "R" "T") l = false.
+
+  Lemma take_till_dot x tl : no_dot x = true -> take_till "." (x ++ "." :: tl) = POk x ("." :: tl).
   Proof.
-    intros Hstep v F tl r Hv L. destruct v as [x|].
-    - rewrite print_field_some in *. cbn [length] in L. rewrite !app_length in L. cbn [length] in L.
-      rewrite !app_length in L. pose proof eol_length as E.
-      destruct F as [|[|F]]; try lia. exists F. split; [lia|].
-      rewrite (Hstep _ _ _ _ Hv). unfold eol. rewrite loop_xx. reflexivity.
-    - exists F. split; [exact L|reflexivity].
+    intros H. unfold take_till. rewrite (span_block _ x ("." :: tl)); [reflexivity|exact H|reflexivity].
   Qed.
 
-  Definition expected_data (syms : str) (rows : list prow) : option (list (list cell)) :=
-    match syms, sym_indices al syms with
-    | _ :: _, Some idx => Some (build_matrix al idx (map pr_toks rows))
-    | _, _ => None
-    end.
+  Lemma refline_ok_parts_field t : field_ok t = true -> no_nl (" " :: " " :: t) = true.
+  Proof. intros H. destruct (field_ok_parts t H) as (H1 & _). cbn [no_nl forallb]. exact H1. Qed.
 
-  Definition apply_data (d : option (list (list cell))) (r : record) : record :=
-    match d with None => r | Some m => set_data m r end.
-
-  Definition matrix_ok (sep syms : str) (rows : list prow) : bool :=
-    match syms with
-    | [] => match rows with [] => true | _ => false end
-    | _ => match sym_indices al syms with Some _ => true | None => false end && sep_ok sep &&
-           match rows with [] => false | _ => true end &&
-           forallb (row_ok (length syms)) rows
-    end.
-
-  Lemma print_matrix_cons po sep c cs rows tl :
-    print_matrix eol po sep (c :: cs) rows ++ tl =
-    "P" :: (if po then "O" else "0") :: sym_text sep (c :: cs) ++ eol ++ rows_text crlf sep rows ++
-    "X" :: "X" :: eol ++ tl.
+  Lemma reference_loop_printed : forall lines fuel tl pm li ti,
+    forallb refline_ok lines = true -> stop2 tl ->
+    length (flat_map (print_refline eol) lines ++ tl) < fuel ->
+    reference_loop fuel (flat_map (print_refline eol) lines ++ tl) pm li ti =
+    POk (fold_left apply_refline lines (pm, li, ti)) tl.
   Proof.
-    unfold print_matrix, xx_line, sym_text, rows_text, row_text. cbn [app]. rewrite <- !app_assoc. reflexivity.
+    induction lines as [|l lines IH]; intros fuel tl pm li ti Hok Hst L.
+    - destruct fuel; [lia|]. cbn [flat_map app fold_left reference_loop].
+      destruct Hst as (H2 & HX & HA & HL & HT). rewrite H2, HX, HA, HL, HT. reflexivity.
+    - cbn [forallb] in Hok. apply andb_true_iff in Hok. destruct Hok as [Hl Hok].
+      destruct fuel; [lia|]. cbn [flat_map fold_left] in *. rewrite <- app_assoc in *.
+      set (rest := flat_map (print_refline eol) lines ++ tl) in *.
+      assert (Lr : forall a, a <> [] -> length (a ++ rest) < S fuel -> length rest < fuel).
+      { intros a Ha. rewrite app_length. destruct a; [congruence|]. cbn [length]. lia. }
+      destruct l as [p|t|t|t]; cbn [print_refline apply_refline refline_ok] in *.
+      + (* RX *)
+        apply andb_true_iff in Hl. destruct Hl as [Hl Hb]. apply andb_true_iff in Hl. destruct Hl as [Hl Hd].
+        apply andb_true_iff in Hl. destruct Hl as [Hn Hu].
+        rewrite <- !app_assoc in *. cbn [app] in *.
+        cbn [reference_loop]. change (negb (has_two_chars ("R" :: "X" :: _))) with false. cbn iota.
+        change (starts_with (tg "R" "X") ("R" :: "X" :: _)) with true. cbn iota.
+        unfold preceded at 1 2, terminated at 1 2.
+        change (tag (tg "R" "X") ("R" :: "X" :: " " :: " " :: "P" :: "U" :: "B" :: "M" :: "E" :: "D" :: ":" :: " " :: p ++ "." :: eol ++ rest))
+          with (POk (tg "R" "X") (" " :: " " :: "P" :: "U" :: "B" :: "M" :: "E" :: "D" :: ":" :: " " :: p ++ "." :: eol ++ rest)).
+        cbn [pbind].
+        assert (S1 : space0 (" " :: " " :: "P" :: "U" :: "B" :: "M" :: "E" :: "D" :: ":" :: " " :: p ++ "." :: eol ++ rest)
+                     = POk [" "; " "] ("P" :: "U" :: "B" :: "M" :: "E" :: "D" :: ":" :: " " :: p ++ "." :: eol ++ rest))
+          by (apply (space0_block [" "; " "] ("P" :: "U" :: "B" :: "M" :: "E" :: "D" :: ":" :: " " :: p ++ "." :: eol ++ rest) eq_refl eq_refl)).
+        rewrite S1. cbn [pbind].
+        change (tag ["P"; "U"; "B"; "M"; "E"; "D"; ":"] ("P" :: "U" :: "B" :: "M" :: "E" :: "D" :: ":" :: " " :: p ++ "." :: eol ++ rest))
+          with (POk ["P"; "U"; "B"; "M"; "E"; "D"; ":"] (" " :: p ++ "." :: eol ++ rest)).
+        cbn [pbind].
+        assert (S0 : space0 (" " :: p ++ "." :: eol ++ rest) = POk [" "] (p ++ "." :: eol ++ rest)).
+        { apply (space0_block [" "] (p ++ "." :: eol ++ rest) eq_refl).
+          destruct p as [|b p']; [reflexivity|]. exact Hb. }
+        rewrite S0. cbn [pbind].
+        unfold terminated. rewrite (take_till_dot p (eol ++ rest) Hd). cbn [pbind].
+        change (char_ "." ("." :: eol ++ rest)) with (POk "." (eol ++ rest)). cbn [pbind].
+        pose proof (parse_line_eol crlf [] rest eq_refl) as PL. cbn [app] in PL. fold eol in PL. rewrite PL.
+        cbn [pbind]. apply IH; [exact Hok|exact Hst|].
+        change (length rest < fuel). clearbody rest. clear -L. cbn [length] in L. rewrite ?app_length in L. cbn [length] in L. rewrite ?app_length in L. lia.
+      + (* RA *)
+        apply andb_true_iff in Hl. destruct Hl as [Hn Hu].
+        rewrite <- !app_assoc in *. cbn [app] in *.
+        cbn [reference_loop]. change (negb (has_two_chars ("R" :: "A" :: _))) with false. cbn iota.
+        change (starts_with (tg "R" "X") ("R" :: "A" :: _)) with false. cbn iota.
+        change (starts_with (tg "R" "A") ("R" :: "A" :: _)) with true. cbn iota.
+        rewrite tagged_line. unfold eol. rewrite (parse_line_eol crlf t rest Hn). cbn [pbind].
+        apply IH; [exact Hok|exact Hst|].
+        change (length rest < fuel). clearbody rest. clear -L. cbn [length] in L. rewrite ?app_length in L. cbn [length] in L. rewrite ?app_length in L. lia.
+      + (* RT *)
+        rewrite <- !app_assoc in *. cbn [app] in *.
+        cbn [reference_loop]. change (negb (has_two_chars ("R" :: "T" :: _))) with false. cbn iota.
+        change (starts_with (tg "R" "X") ("R" :: "T" :: _)) with false. cbn iota.
+        change (starts_with (tg "R" "A") ("R" :: "T" :: _)) with false. cbn iota.
+        change (starts_with (tg "R" "L") ("R" :: "T" :: _)) with false. cbn iota.
+        change (starts_with (tg "R" "T") ("R" :: "T" :: _)) with true. cbn iota.
+        destruct (field_line' crlf "R" "T" t rest Hl) as [E1 E2]. fold eol in E1, E2.
+        rewrite E1. cbn [pbind]. rewrite E2.
+        apply IH; [exact Hok|exact Hst|].
+        change (length rest < fuel). clearbody rest. clear -L. cbn [length] in L. rewrite ?app_length in L. cbn [length] in L. rewrite ?app_length in L. lia.
+      + (* RL *)
+        rewrite <- !app_assoc in *. cbn [app] in *.
+        cbn [reference_loop]. change (negb (has_two_chars ("R" :: "L" :: _))) with false. cbn iota.
+        change (starts_with (tg "R" "X") ("R" :: "L" :: _)) with false. cbn iota.
+        change (starts_with (tg "R" "A") ("R" :: "L" :: _)) with false. cbn iota.
+        change (starts_with (tg "R" "L") ("R" :: "L" :: _)) with true. cbn iota.
+        destruct (field_line' crlf "R" "L" t rest Hl) as [E1 E2]. fold eol in E1, E2.
+        rewrite E1. cbn [pbind]. rewrite E2.
+        apply IH; [exact Hok|exact Hst|].
+        change (length rest < fuel). clearbody rest. clear -L. cbn [length] in L. rewrite ?app_length in L. cbn [length] in L. rewrite ?app_length in L. lia.
   Qed.
 
-  Lemma loop_opt_matrix po sep syms rows F tl r :
-    matrix_ok sep syms rows = true -> length (print_matrix eol po sep syms rows ++ tl) < F ->
-    exists F', length tl < F' /\
-               loop F (print_matrix eol po sep syms rows ++ tl) r = loop F' tl (apply_data (expected_data syms rows) r).
+  (* every printed line starts with a byte that is not a digit: the row loop of a matrix
+     stops there *)
+  Lemma item_head eol' it tl : exists h X, print_item eol' it ++ tl = h :: X /\ is_digit h = false.
   Proof.
-    intros Hm L. destruct syms as [|c cs].
-    - exists F. split; [exact L|reflexivity].
-    - unfold matrix_ok in Hm. apply andb_true_iff in Hm. destruct Hm as [Hm Hrows].
-      apply andb_true_iff in Hm. destruct Hm as [Hm Hne].
-      apply andb_true_iff in Hm. destruct Hm as [Hidx Hsep].
-      destruct (sym_indices al (c :: cs)) as [idx|] eqn:Ei; [|discriminate].
-      destruct rows as [|r0 rows]; [discriminate|].
-      rewrite print_matrix_cons in *. cbn [length] in L. rewrite !app_length in L. cbn [length] in L.
-      rewrite !app_length in L. pose proof eol_length as E.
-      destruct F as [|[|F]]; try lia. exists F. split; [lia|].
-      unfold eol. rewrite (loop_matrix al crlf sep Hsep _ po c cs idx r0 rows _ _ Ei Hrows), loop_xx.
-      unfold expected_data. rewrite Ei. reflexivity.
+    destruct it as [num xref lines|k v|k v| |po sep syms rows]; cbn [print_item app xx_line].
+    - eexists _, _; split; reflexivity.
+    - destruct k; eexists _, _; split; reflexivity.
+    - destruct k; eexists _, _; split; reflexivity.
+    - eexists _, _; split; reflexivity.
+    - eexists _, _; split; reflexivity.
   Qed.
 
-  Lemma prec_ok_parts p : prec_ok al p = true ->
-    ofield_ok (p_id p) = true /\ ofield_ok (p_ac p) = true /\ ofield_ok (p_na p) = true /\
-    ofield_ok (p_de p) = true /\ matrix_ok (p_sep p) (p_syms p) (p_rows p) = true.
+  Lemma body_head eol' (items : prec) term :
+    exists h X, print_body eol' items ++ "/" :: "/" :: term = h :: X /\ is_digit h = false.
   Proof.
-    unfold prec_ok. intros H. apply andb_true_iff in H. destruct H as [H H5].
-    apply andb_true_iff in H. destruct H as [H H4]. apply andb_true_iff in H. destruct H as [H H3].
-    apply andb_true_iff in H. destruct H as [H1 H2]. repeat split; try assumption.
-    unfold matrix_ok. destruct (p_syms p) as [|c cs]; [exact H5|].
-    apply andb_true_iff in H5. destruct H5 as [H5 Hr]. apply andb_true_iff in H5. destruct H5 as [H5 Hn].
-    apply andb_true_iff in H5. destruct H5 as [H5 Hs]. apply andb_true_iff in H5. destruct H5 as [Hi _].
-    rewrite Hi, Hs, Hn, Hr. reflexivity.
+    destruct items as [|it items]; [eexists _, _; split; reflexivity|].
+    unfold print_body. cbn [flat_map]. rewrite <- app_assoc. apply item_head.
+  Qed.
+
+  (* ... and with two bytes that are not the code of a reference line: the RX/RA/RT/RL loop
+     of a reference block stops there *)
+  Lemma item_stop2 eol' it tl : stop2 (print_item eol' it ++ tl).
+  Proof.
+    destruct it as [num xref lines|k v|k v| |po sep syms rows]; cbn [print_item app xx_line];
+      try (destruct k); try (destruct po); repeat split.
+  Qed.
+
+  Lemma body_stop2 eol' (items : prec) term : stop2 (print_body eol' items ++ "/" :: "/" :: term).
+  Proof.
+    destruct items as [|it items]; [repeat split|].
+    unfold print_body. cbn [flat_map]. rewrite <- app_assoc. apply item_stop2.
+  Qed.
+
+  Lemma xref_ok_parts x : xref_ok (Some x) = true -> no_nl x = true /\ no_dot x = true /\ trim x = x.
+  Proof.
+    cbn [xref_ok]. intros H. apply andb_true_iff in H. destruct H as [H1 H2].
+    destruct (field_ok_parts x H1) as (A & _ & C). auto.
+  Qed.
+
+  Lemma parse_reference_number_printed num xref tl :
+    label_ok num = true -> xref_ok xref = true ->
+    parse_reference_number ("R" :: "N" :: " " :: " " :: "[" :: num ++ "]" :: print_xref xref ++ eol ++ tl)
+    = POk (match u32 num with POk n _ => n | _ => 0%N end, xref) tl.
+  Proof.
+    intros Hn Hx. unfold parse_reference_number.
+    set (input := "R" :: "N" :: " " :: " " :: "[" :: num ++ "]" :: print_xref xref ++ eol ++ tl).
+    assert (P1 : preceded (terminated (tag (tg "R" "N")) space0) (delimited (char_ "[") u32 (char_ "]")) input
+                 = POk (match u32 num with POk n _ => n | _ => 0%N end) (print_xref xref ++ eol ++ tl)).
+    { subst input. unfold preceded, terminated, delimited.
+      change (tag (tg "R" "N") ("R" :: "N" :: " " :: " " :: "[" :: num ++ "]" :: print_xref xref ++ eol ++ tl))
+        with (POk (tg "R" "N") (" " :: " " :: "[" :: num ++ "]" :: print_xref xref ++ eol ++ tl)).
+      cbn [pbind].
+      assert (S1 : space0 (" " :: " " :: "[" :: num ++ "]" :: print_xref xref ++ eol ++ tl)
+                   = POk [" "; " "] ("[" :: num ++ "]" :: print_xref xref ++ eol ++ tl))
+        by (apply (space0_block [" "; " "] ("[" :: num ++ "]" :: print_xref xref ++ eol ++ tl) eq_refl eq_refl)).
+      rewrite S1. cbn [pbind].
+      change (char_ "[" ("[" :: num ++ "]" :: print_xref xref ++ eol ++ tl))
+        with (POk "[" (num ++ "]" :: print_xref xref ++ eol ++ tl)).
+      cbn [pbind]. rewrite (label_ok_u32' num ("]" :: print_xref xref ++ eol ++ tl) Hn eq_refl). cbn [pbind].
+      reflexivity. }
+    rewrite P1. cbn [pbind]. destruct xref as [x|]; cbn [print_xref].
+    - destruct (xref_ok_parts x Hx) as (X1 & X2 & X3).
+      assert (EX : [";"; " "] ++ x ++ ["."] = ";" :: (" " :: x) ++ ["."]) by reflexivity.
+      assert (EY : (([";"; " "] ++ x ++ ["."]) ++ eol ++ tl) = ";" :: (" " :: x) ++ "." :: eol ++ tl).
+      { rewrite EX. cbn [app]. rewrite <- app_assoc. reflexivity. }
+      rewrite EY. cbn [starts_with]. change (beq ";" ";") with true. cbn [andb]. cbn iota.
+      unfold delimited. cbn [char_]. change (beq ";" ";") with true. cbn iota. cbn [pbind].
+      rewrite (take_till_dot (" " :: x) (eol ++ tl)); [|cbn [no_dot forallb]; exact X2].
+      cbn [pbind char_]. change (beq "." ".") with true. cbn iota. cbn [pbind].
+      pose proof (parse_line_eol crlf [] tl eq_refl) as PL. cbn [app] in PL. fold eol in PL. rewrite PL.
+      cbn [pbind]. rewrite (trim_blank_prefix x X3). reflexivity.
+    - cbn [app].
+      assert (SW : starts_with [";"] (eol ++ tl) = false) by (unfold eol; destruct crlf; reflexivity).
+      rewrite SW. subst input. cbn [print_xref app].
+      assert (E : ("R" :: "N" :: " " :: " " :: "[" :: num ++ "]" :: eol ++ tl)
+                  = ("R" :: "N" :: " " :: " " :: "[" :: num ++ ["]"]) ++ eol ++ tl).
+      { cbn [app]. rewrite <- app_assoc. reflexivity. }
+      rewrite E. unfold eol. rewrite parse_line_eol; [reflexivity|].
+      change ("R" :: "N" :: " " :: " " :: "[" :: num ++ ["]"]) with (["R"; "N"; " "; " "; "["] ++ num ++ ["]"]).
+      unfold no_nl. rewrite !forallb_app. fold (no_nl num). rewrite (label_no_nl num Hn). reflexivity.
+  Qed.
+
+  Lemma loop_ref f num xref lines tl r :
+    label_ok num = true -> xref_ok xref = true -> forallb refline_ok lines = true -> stop2 tl ->
+    loop (S f) (print_item eol (IRef num xref lines) ++ tl) r = loop f tl (add_ref (ref_of num xref lines) r).
+  Proof.
+    intros Hn Hx Hl Hst. cbn [print_item]. cbn [app]. rewrite <- !app_assoc. cbn [app].
+    cbn [record_loop]. rewrite (parse_tag_known "R" "N" TRN _ eq_refl). cbn [pbind fst snd].
+    unfold parse_reference. rewrite <- !app_assoc.
+    rewrite (parse_reference_number_printed num xref _ Hn Hx). cbn [pbind].
+    rewrite (reference_loop_printed lines _ tl None None None Hl Hst (Nat.lt_succ_diag_r _)).
+    cbn [pbind]. unfold ref_of. destruct (fold_left apply_refline lines (None, None, None)) as [[pm li] ti].
+    reflexivity.
+  Qed.
+
+  Lemma item_ok_matrix po sep syms rows : item_ok al (IMatrix po sep syms rows) = true ->
+    exists c cs idx r0 rows', syms = c :: cs /\ sym_indices al syms = Some idx /\ rows = r0 :: rows' /\
+      sep_ok sep = true /\ nodupb syms = true /\ forallb (row_ok (length syms)) rows = true.
+  Proof.
+    cbn [item_ok]. intros H. apply andb_true_iff in H. destruct H as [H Hrows].
+    apply andb_true_iff in H. destruct H as [H Hne]. apply andb_true_iff in H. destruct H as [H Hsep].
+    apply andb_true_iff in H. destruct H as [H Hnd]. apply andb_true_iff in H. destruct H as [Hs Hidx].
+    destruct syms as [|c cs]; [discriminate|]. destruct (sym_indices al (c :: cs)) as [idx|] eqn:Ei; [|discriminate].
+    destruct rows as [|r0 rows']; [discriminate|]. exists c, cs, idx, r0, rows'. repeat split; assumption.
+  Qed.
+
+  (* one line (or matrix block) of the record *)
+  Lemma loop_item it F h X r :
+    item_ok al it = true -> is_digit h = false -> stop2 (h :: X) -> length (print_item eol it ++ h :: X) < F ->
+    exists F', length (h :: X) < F' /\ loop F (print_item eol it ++ h :: X) r = loop F' (h :: X) (apply_item al r it).
+  Proof.
+    intros Hok Hh Hst L. pose proof eol_length as E.
+    destruct it as [num xref lines|k v|k v| |po sep syms rows]; cbn [apply_item] in *.
+    - cbn [item_ok] in Hok. apply andb_true_iff in Hok. destruct Hok as [Hok Hl].
+      apply andb_true_iff in Hok. destruct Hok as [Hn Hx].
+      destruct F as [|F]; [lia|]. exists F. split.
+      + cbn [print_item] in L. cbn [app length] in L. rewrite !app_length in L. cbn [length] in *. lia.
+      + apply loop_ref; assumption.
+    - cbn [print_item] in *. cbn [app] in *. rewrite <- !app_assoc in *. cbn [length] in L. rewrite !app_length in L.
+      destruct F as [|F]; [lia|]. exists F. split; [cbn [length] in *; lia|].
+      unfold eol. apply loop_field. exact Hok.
+    - cbn [print_item] in *. cbn [app] in *. rewrite <- !app_assoc in *. cbn [length] in L. rewrite !app_length in L.
+      apply andb_true_iff in Hok. destruct Hok as [H1 H2].
+      destruct F as [|F]; [lia|]. exists F. split; [cbn [length] in *; lia|].
+      unfold eol. apply loop_skip. exact H1.
+    - cbn [print_item] in *. unfold xx_line in *. cbn [app] in *. cbn [length] in L. rewrite !app_length in L.
+      destruct F as [|F]; [lia|]. exists F. split; [cbn [length] in *; lia|].
+      unfold eol. apply loop_xx.
+    - cbn [print_item] in *.
+      destruct (item_ok_matrix po sep syms rows Hok) as (c & cs & idx & r0 & rows' & -> & Ei & -> & Hsep & _ & Hrows).
+      rewrite Ei. fold (sym_text sep (c :: cs)) in *. fold (row_text crlf sep) in *.
+      fold (rows_text crlf sep (r0 :: rows')) in *.
+      cbn [app] in *. rewrite <- !app_assoc in *. cbn [length] in L. rewrite !app_length in L.
+      destruct F as [|F]; [lia|]. exists F. split; [cbn [length] in *; lia|].
+      unfold eol. apply (loop_matrix al crlf sep Hsep); assumption.
+  Qed.
+
+  Lemma loop_items : forall (items : prec) F term r,
+    prec_ok al items = true -> term = eol \/ term = [] ->
+    length (print_body eol items ++ "/" :: "/" :: term) < F ->
+    loop F (print_body eol items ++ "/" :: "/" :: term) r = POk (fold_left (apply_item al) items r) [].
+  Proof.
+    induction items as [|it items IH]; intros F term r Hok Ht L.
+    - cbn [print_body flat_map app fold_left] in *. destruct F as [|F]; [lia|].
+      unfold eol in Ht. apply (loop_end al crlf F term r Ht).
+    - cbn [prec_ok forallb] in Hok. apply andb_true_iff in Hok. destruct Hok as [Hit Hok].
+      unfold print_body in *. cbn [flat_map fold_left] in *. rewrite <- app_assoc in *.
+      fold (print_body eol items) in *.
+      destruct (body_head eol items term) as (h & X & EB & Hh).
+      pose proof (body_stop2 eol items term) as Hst. rewrite EB in *.
+      destruct (loop_item it F h X r Hit Hh Hst L) as (F' & L' & E'). rewrite E'. rewrite <- EB in *.
+      apply IH; assumption.
   Qed.
 
   Theorem parse_record_printed p term : prec_ok al p = true -> term = eol \/ term = [] ->
     parse_record sp1 al (print_record eol term p) = POk (expected_record al p) [].
   Proof.
-    intros Hp Ht. destruct (prec_ok_parts p Hp) as (Hid & Hac & Hna & Hde & Hm).
-    unfold parse_record. generalize (Nat.lt_succ_diag_r (length (print_record eol term p))).
-    generalize (S (length (print_record eol term p))) as F. intros F L.
-    unfold print_record, print_body in *. rewrite <- !app_assoc in *.
-    set (r1 := apply_opt set_ac (p_ac p) empty_record).
-    set (r2 := apply_opt set_id (p_id p) r1).
-    set (r3 := apply_opt set_na (p_na p) r2).
-    set (r4 := apply_opt set_de (p_de p) r3).
-    destruct (loop_opt_field "A" "C" set_ac (loop_ac al crlf) (p_ac p) F _ empty_record Hac L)
-      as (F1 & L1 & E1). rewrite E1. fold r1.
-    destruct (loop_opt_field "I" "D" set_id (loop_id al crlf) (p_id p) F1 _ r1 Hid L1)
-      as (F2 & L2 & E2). rewrite E2. fold r2.
-    destruct (loop_opt_field "N" "A" set_na (loop_na al crlf) (p_na p) F2 _ r2 Hna L2)
-      as (F3 & L3 & E3). rewrite E3. fold r3.
-    destruct (loop_opt_field "D" "E" set_de (loop_de al crlf) (p_de p) F3 _ r3 Hde L3)
-      as (F4 & L4 & E4). rewrite E4. fold r4.
-    destruct (loop_opt_matrix (p_po p) (p_sep p) (p_syms p) (p_rows p) F4 _ r4 Hm L4) as (F5 & L5 & E5).
-    rewrite E5. destruct F5 as [|F5]; [lia|].
-    cbn [app]. unfold eol in Ht. rewrite (loop_end al crlf F5 term _ Ht). f_equal.
-    unfold expected_record, expected_data. subst r4 r3 r2 r1.
-    destruct (p_syms p) as [|c cs]; [|destruct (sym_indices al (c :: cs))];
-      destruct (p_ac p), (p_id p), (p_na p), (p_de p); reflexivity.
+    intros Hp Ht. unfold parse_record, print_record, expected_record.
+    change (["/"; "/"] ++ term) with ("/" :: "/" :: term).
+    apply loop_items; [exact Hp|exact Ht|apply Nat.lt_succ_diag_r].
   Qed.
 End RT2.
 
